@@ -521,6 +521,9 @@ func c06scenarios(res *report.Result) []schedrun.Scenario {
 			n += len(th)
 		}
 		b := 1
+		if n == 1 && !p.Early {
+			b = 2 // quick: two deviations on the single-update programs
+		}
 		if res.Thorough() {
 			b = 2
 			if n > 2 {
